@@ -128,6 +128,10 @@ type event struct {
 	fn   func()
 }
 
+// owners maps the identity of every bound, not yet exited task goroutine to
+// its simulator, across runs.
+var owners sync.Map
+
 var (
 	current  atomic.Pointer[Sim]
 	genCount atomic.Uint64
@@ -284,6 +288,7 @@ func (s *Sim) startTok(tok uint64) {
 
 func (s *Sim) bindAndPark(t *Task) {
 	g := curGID()
+	owners.Store(g, s)
 	s.mu.Lock()
 	t.gid = g
 	s.byGID[g] = t
@@ -314,6 +319,7 @@ func (s *Sim) exitTask(t *Task) {
 	t.site = "exit"
 	delete(s.byGID, t.gid)
 	s.mu.Unlock()
+	owners.Delete(t.gid)
 	s.signal()
 }
 
@@ -329,6 +335,15 @@ func (s *Sim) yield(site string) {
 	}
 	t := s.lookup()
 	if t == nil {
+		// Not a task of this run. If it is a task of an EARLIER run that has
+		// been torn down (it was blocked in a primitive when that run ended
+		// and came back to life later), it must not keep executing script code
+		// as an orphan: unwind it.
+		if site == "vm.eval" {
+			if o, ok := owners.Load(curGID()); ok && o.(*Sim) != s {
+				panic(AbortSentinel)
+			}
+		}
 		return
 	}
 	s.mu.Lock()
